@@ -13,7 +13,9 @@ EXPLANATION = (
     "{'', .gz, .bz2, .xz}, which file is addressed and whether the data is (de)compressed, and requires writer and reader of one "
     "format to agree -- and to (de)compress all three suffixes when the method's own docstring promises it; (SIB-10) util.xopen "
     "maps .bz2/.gz/.xz to bz2/gzip/lzma.open and forwards path and mode; (FWD-live) encoding, sep, header, compress, allow_pickle and **kwargs each reach a callee; the ListOfDicts CSV reader "
-    "and writer agree on dialect and delimiter. Not decided: equality of values/dtypes after the trip, CSV quoting, Arrow types."
+    "and writer agree on every formatting parameter that changes parsing (dialect, delimiter, quote/escape characters, "
+    "skipinitialspace); every opener inside xopen receives **kwargs and every xopen call names its text/binary class explicitly "
+    "('r' is text for open() but binary for gzip/bz2/lzma.open()). Not decided: equality of values/dtypes after the trip, CSV quoting, Arrow types."
 )
 ASSUMPTIONS = ["external summary table (sa/tables.py ROUTES): pyarrow.csv.read_csv decompresses .gz/.bz2 by suffix, "
                "pyarrow.csv.write_csv never compresses, np.savez appends .npz to str paths, np.load/open address the given path",
